@@ -58,7 +58,10 @@ def search(
     rep.states.update(seen.keys())
     level = 0
     while frontier and level < depth:
-        tasks = [(si, ev) for si in range(len(frontier)) for ev in events]
+        # event-major order: the expensive events (reindex + oracle) of different
+        # states land on different workers (state-major order sends every task
+        # of one event to one worker when len(events) is a multiple of W)
+        tasks = [(si, ev) for ev in events for si in range(len(frontier))]
 
         def work(i, t):
             return step(frontier[t[0]], t[1])
@@ -75,7 +78,8 @@ def search(
             H.freeze(H.DEFAULT_DAY)
 
         results = H.parallel_fold(tasks, work, list, fold, merge, workers=ctx.workers, init=init)
-        results.sort(key=lambda x: x[0])
+        order = {t: (t[0], events.index(t[1])) for t in tasks}
+        results.sort(key=lambda x: order[tasks[x[0]]])
         nxt: list[St] = []
         for i, r in results:
             if r.state is None:
